@@ -40,7 +40,8 @@ func refGet(v *V, p []string) (*V, string) {
 			}
 			v = e
 		case "ptr":
-			if v.Nil || v.P.K != "struct" {
+			// a pointer is followed only to a struct; *any is a pointer to an interface value
+			if v.Nil || v.P.K != "struct" || v.T == "any" {
 				return nil, "bad"
 			}
 			v = v.P
@@ -152,7 +153,53 @@ func refPut(cur *V, slot string, p []string, x *V) (*V, error) {
 // expected result of mapping one value/chunk set. skipMissing: stream semantics.
 // returns (value, "ok") | (nil, "err")
 func refRun(T string, decls []Decl, vals []*V, skipMissing bool) (*V, string) {
+	return refRunS(T, decls, vals, nil, skipMissing)
+}
+
+// is every static value a valid constant for its target path (what Compile has to establish)
+func staticsValid(T string, statics []Static) bool {
+	for _, s := range statics {
+		if _, err := refPut(zeroV(T), T, s.To, s.Val); err != nil {
+			return false
+		}
+		if len(s.To) > 0 && !pathStaticallyValid(T, s.To) {
+			return false
+		}
+	}
+	return true
+}
+
+// a target path the static walker accepts: struct fields (one pointer level), string-keyed maps,
+// map keys below `any`
+func pathStaticallyValid(te string, p []string) bool {
+	for i, f := range p {
+		switch {
+		case strings.HasPrefix(te, "map[string]"):
+			te = te[len("map[string]"):]
+		case te == "any":
+			return true
+		default:
+			base := strings.TrimPrefix(te, "*")
+			ft, ok := fieldType(base, f)
+			if !ok {
+				return false
+			}
+			te = ft
+		}
+		_ = i
+	}
+	return true
+}
+
+func refRunS(T string, decls []Decl, vals []*V, statics []Static, skipMissing bool) (*V, string) {
 	cur := zeroV(T)
+	for _, s := range statics {
+		nv, err := refPut(cur, T, s.To, s.Val)
+		if err != nil {
+			return nil, "err"
+		}
+		cur = nv
+	}
 	for i, d := range decls {
 		if len(d.Maps) == 0 {
 			return vals[i], "ok"
@@ -314,6 +361,14 @@ func isPrefix(p, q []string) bool {
 		return false
 	}
 	return reflect.DeepEqual(append([]string{}, p...), append([]string{}, q[:len(p)]...))
+}
+
+func allTargets(c *Case) [][]string {
+	ps := targetPaths(c.Decls)
+	for _, s := range c.Statics {
+		ps = append(ps, s.To)
+	}
+	return ps
 }
 
 // target paths of all declarations (a plain AddInput maps the whole input)
